@@ -1080,6 +1080,9 @@ class Columns(Widget, WidgetContainerMixin, WidgetContainerListContentsMixin):
         best = None
         x = 0
         for i, (width, (w, _options)) in enumerate(zip(widths, self.contents)):
+            if width <= 0:
+                # hidden, like in render(): takes no divider either
+                continue
             end = x + width
             if w.selectable():
                 if col != Align.RIGHT and (col == Align.LEFT or x > col) and best is None:
@@ -1131,6 +1134,9 @@ class Columns(Widget, WidgetContainerMixin, WidgetContainerListContentsMixin):
 
         x = 0
         for i, (width, height, w_size, (w, _)) in enumerate(zip(widths, heights, size_args, self.contents)):
+            if width <= 0:
+                # hidden, like in render(): takes no divider either
+                continue
             if col < x:
                 return False
             w = self.contents[i][0]  # noqa: PLW2901
